@@ -19,6 +19,7 @@ import ast
 
 from ..engine.model import AnalysisError, src, walk_own
 from ..engine.flow import Flow
+from ..engine.inline import Inliner
 from ..engine.typestate import EventDomain
 from .armstate import ArmChecker, ARM
 from .c05 import r050
@@ -212,39 +213,38 @@ def check(model, rep):
            'makeWrench is evaluated %s times on the paths of one iteration (exactly once per link expected)' % counts, line=lp.lineno)
     if mk:
         c = mk[0]
-        pos = resolve(c.args[0], asg) if c.args else None
-        mass = resolve(c.args[1], asg) if len(c.args) > 1 else None
-        grav = c.args[2] if len(c.args) > 2 else None
-        ok_pos = isinstance(pos, ast.BinOp) and isinstance(pos.op, ast.MatMult) and src(pos.left) == 'joint_poses[%s]' % iv \
-            and src(resolve(pos.right, asg)) == 'self._link_mass_grav_centers[%s]' % iv
-        rep.ob('R06.4', lm, 'weight applied at joint_pose[i] @ cg[i]', bool(ok_pos),
-               'application point is %s: joint pose and centre of gravity must carry the same link index' % (src(pos) if pos is not None else '?'), line=c.lineno)
-        rep.ob('R06.4', lm, 'weight magnitude is mass[i]', mass is not None and src(mass) == 'self._link_masses[%s]' % iv,
-               'mass is %s' % (src(mass) if mass is not None else '?'), line=c.lineno)
-        rep.ob('R06.4', lm, 'weight direction is the arm gravity', grav is not None and src(grav) == 'self.grav',
-               'direction argument is %s' % (src(grav) if grav is not None else '?'), line=c.lineno)
+        il = Inliner(lm)
+        th_p = lm.params[2]
+        R = {iv: 'I'}
+        pos = il.text(c.args[0], roles=R) if c.args else '?'
+        mass = il.text(c.args[1], roles=R) if len(c.args) > 1 else '?'
+        grav = il.text(c.args[2], roles=R) if len(c.args) > 2 else '?'
+        rep.ob('R06.4', lm, 'weight applied at joint_pose[i] @ cg[i]', pos in ('self.getJointTransforms()[I]@self._link_mass_grav_centers[I]', 'self._joint_homes_global[I]@self._link_mass_grav_centers[I]'),
+               'application point is %s: joint pose and centre of gravity must carry the same link index' % pos, line=c.lineno)
+        rep.ob('R06.4', lm, 'weight magnitude is mass[i]', mass == 'self._link_masses[I]', 'mass is %s' % mass, line=c.lineno)
+        rep.ob('R06.4', lm, 'weight direction is the arm gravity', grav == 'self.grav', 'direction argument is %s' % grav, line=c.lineno)
         acc = [n for n in lp.body if isinstance(n, ast.Assign) and isinstance(n.value, ast.BinOp) and isinstance(n.value.op, ast.Add)
-               and src(n.targets[0]) == src(n.value.left) and any(x is c for x in ast.walk(n.value.right))]
+               and src(n.targets[0]) == src(n.value.left) and 'makeWrench' in il.text(n.value.right)]
+        acc += [n for n in lp.body if isinstance(n, ast.AugAssign) and isinstance(n.op, ast.Add) and isinstance(n.target, ast.Name) and 'makeWrench' in il.text(n.value)]
         rep.ob('R06.4', lm, 'carry wrench accumulates (carry = carry + weight)', len(acc) == 1, 'weights are not accumulated from the tip inward', line=c.lineno)
-        carry = src(acc[0].targets[0]) if acc else None
+        carry = src(acc[0].targets[0] if isinstance(acc[0], ast.Assign) else acc[0].target) if acc else None
         st = [n for n in lp.body if isinstance(n, ast.Assign) and isinstance(n.targets[0], ast.Subscript)]
         ok_t = False
+        got_t = '?'
         if st and carry:
+            R2 = {iv: 'I', carry: 'CARRY'}
             tgt = st[-1].targets[0]
-            val = resolve(st[-1].value, asg)
-            tau = None
-            if isinstance(val, ast.Subscript) and src(val.slice) == '-1':
-                tau = resolve(val.value, asg)
-            ok_t = src(tgt.slice).replace(' ', '') == '%s-1' % iv and isinstance(tau, ast.BinOp) and isinstance(tau.op, ast.MatMult) \
-                and src(tau.left).replace(' ', '') == 'jacobian[0:6,0:%s].T' % iv and src(tau.right) == carry
+            got_t = '%s <- %s' % (il.text(tgt.slice, roles=R2), il.text(st[-1].value, roles=R2, keep=(carry,)))
+            ok_t = il.text(tgt.slice, roles=R2) == 'I-1' and il.text(st[-1].value, roles=R2, keep=(carry,)) in (
+                '(self.jacobian(%s)[0:6,0:I].T@CARRY)[-1]' % th_p, '(self.jacobian(%s)[:,0:I].T@CARRY)[-1]' % th_p, '(self.jacobian(%s)[0:6,:I].T@CARRY)[-1]' % th_p)
         rep.ob('R06.4', lm, 'tau[i-1] = last entry of jacobian[0:6, 0:i].T @ carry', ok_t,
-               'joint torque i-1 is not taken from the prefix Jacobian 0:i applied to the accumulated wrench', line=lp.lineno)
+               'joint torque i-1 is not taken from the prefix Jacobian 0:i applied to the accumulated wrench (%s)' % got_t, line=lp.lineno)
         it = src(lp.iter).replace(' ', '')
         rep.ob('R06.4', lm, 'loop from the last link to the first', it == 'range(self.num_dof,0,-1)', 'loop range is %s' % src(lp.iter), line=lp.lineno)
         # initial torques from the tip wrench alone
         ini = [n for n in lm.body() if isinstance(n, ast.Assign) and n.lineno < lp.lineno and isinstance(n.value, ast.BinOp)
                and isinstance(n.value.op, ast.MatMult) and src(n.value.right) == lm.params[1]]
-        rep.ob('R06.4', lm, 'tip wrench contributes J^T @ wrench', bool(ini) and src(ini[0].value.left).endswith('.T'),
+        rep.ob('R06.4', lm, 'tip wrench contributes J^T @ wrench', bool(ini) and il.text(ini[0].value.left) in ('self.jacobian(%s).T' % th_p,),
                'torques are not initialised with jacobian.T @ end-effector wrench')
     from .c02 import closure_obligations
     n = closure_obligations(model, rep, 'R06.5', [arm.methods[m] for m in ('jacobian', 'jacobianBody', 'jacobianLink', 'jacobianEETrans', 'numericalJacobian', 'FKLink', '_helper_refresh_body_screws') if m in arm.methods],
